@@ -151,6 +151,20 @@ Theorem C17_concurrent_equals_sequential : forall scripts sched m0 clk,
 Proof. exact concurrent_equals_sequential_lemma. Qed.
 Print Assumptions C17_concurrent_equals_sequential.
 
+(* The archiver as found counted only the response it finally accepted: three 5xx responses served,
+   the 503 and 500 totals read 0.  (Fixed in /repo by 3ec1779; [arch_calls] is the fixed code.) *)
+Theorem C17_status_counts_orig_refuted :
+  let served := [attempts 2 [503; 200]; attempts 2 [500; 500]] in
+  let total calls k := rs_val (runseq (compile_op (ORateGetTotal (RKey k))) []
+                         (c_mem (exec_all [expand calls] [] (flat_map (fun _ => [L 0]) (List.seq 0 20))))) in
+  served = [[503; 200]; [500; 500]]
+  /\ finished (exec_all [expand (arch_calls_orig served)] [] (flat_map (fun _ => [L 0]) (List.seq 0 20))) = true
+  /\ total (arch_calls_orig served) 503 = VN 0 /\ total (arch_calls_orig served) 500 = VN 0
+  /\ total (arch_calls_orig served) 200 = VN 1
+  /\ total (arch_calls served) 503 = VN 1 /\ total (arch_calls served) 500 = VN 2.
+Proof. exact status_counts_orig_refuted_lemma. Qed.
+Print Assumptions C17_status_counts_orig_refuted.
+
 (* The bucket's mutex is what makes this true: its body run unlocked loses an update. *)
 Theorem C17_bucket_unlocked_refuted :
   exists sched,
